@@ -131,7 +131,7 @@ def verify_case(world, entry, case, feas_timeout=2000):
         st.env["__globals__"] = fn.__globals__
         for a in assumptions:
             st.assume(a)
-        for label, f in case.requires(**argsd):
+        for label, f in case.requires(argsd):
             st.assume(f)
         # cover: the precondition is satisfiable
         rep.covers.append((f"{ex.owner}#cover:requires", list(st.pc)))
@@ -154,7 +154,7 @@ def verify_case(world, entry, case, feas_timeout=2000):
         want_self = opts.get("returns_self", False)
         outs = list(ex.call_function_source(st, fn, pos, kw, node.lineno, defclass=owner, want_self=want_self))
         pend = ex._raises.pop()
-        raises = case.raises(**argsd)
+        raises = case.raises(argsd)
         n = 0
         for s, v in outs:
             n += 1
@@ -164,9 +164,9 @@ def verify_case(world, entry, case, feas_timeout=2000):
             for c in F.side:
                 s.assume(c)
             if case.has_value():
-                goal = struct_eq(v, case.value(**argsd))
+                goal = struct_eq(v, case.value(argsd))
                 ex.oblige(s, goal, "post", "value")
-            for label, f in case.ensures(v, **argsd):
+            for label, f in case.ensures(v, argsd):
                 ex.oblige(s, f, "post", label)
             for exc, label, cond in raises:
                 ex.oblige(s, sym.Not(cond), "noraise", f"{exc.__name__}.{label}")
